@@ -14,6 +14,12 @@ File-level stream (in-process, `run_file_case`): whole multi-sample / multi-chro
 PhasedVcfWriter.write with arbitrary super-reads and both values of remove_existing_phasing (== `c09.writefile` / `c09.writex`,
 plus the property oracle on the output).
 
+Cross-contig layouts (`harness/gen/c09_layout.py`, all three streams, about half of the multi-contig cases): the contigs share
+their sites (same positions / identical copies incl. reads) and / or contig i+1 is shifted so that its first (second) phasable
+record stands at the POS of the last phasable record of contig i - whatever the writer, the reader or the PhasedInputReader keep
+from the chromosome before shows only then.  `cli_boundary_coincidences` / `file_writer_boundary_coincidences` in the input
+distribution count the runs in which the last record phased on a chromosome and the first one phased on the next share a POS.
+
 Oracle on every phase output, per target sample (independent decoder on the pysam-parsed records, expected
 phase from the trace): every decodable phase statement is the one this run wrote and every written one decodes
 to itself (round trip + no stale phase + never both encodings in one call); A and B decode equally (PS ≡ HP);
@@ -28,6 +34,7 @@ from harness.gen import c04_records as R
 from harness.gen.c09_hist import gen_case, build_inputs, gen_interleaved_case, build_interleaved
 from harness.gen.c09_file import gen_file_case, build_file
 from harness.gen import c09_fileops as F
+from harness.gen import c09_layout as LAY
 
 RULE = ("one history of 6 CLI runs (phase with PS, phase with HP, re-phase of the phased file with the other tag "
         "(optionally a sample subset), unphase, phase again, phase with the phased VCF as only phase input) over a "
@@ -41,7 +48,10 @@ RULE = ("one history of 6 CLI runs (phase with PS, phase with HP, re-phase of th
         "contigs, missing samples): the real VcfReader(phases=True) on whole files, the real PhasedInputReader and the real "
         "PhasedVcfWriter.write with arbitrary super-reads, target / chromosome subsets and both values of "
         "remove_existing_phasing; non-trivial there: a table with a phase, a query with pseudo reads, a write() that had to "
-        "state a phase")
+        "state a phase. In all streams about half of the multi-contig cases have contigs whose positions coincide on purpose "
+        "(same sites on every contig, identical contigs, contig i+1 shifted so that its first / second phasable record has the "
+        "POS of the last phasable record of contig i); non-trivial there: the last record phased on a chromosome and the first "
+        "one phased on the next chromosome share their POS")
 MANIFEST = dict(
     text="Lean 4 theorems about the encoders (_set_PS/_set_HP), the tag-independent removal and the two decoders: "
          "ps_roundtrip, hp_roundtrip, decode_written (master lemma: after write exactly the new statement decodes, through "
@@ -123,6 +133,16 @@ def expected_phases(trace):
                 if v0[1] in (0, 1) and v1[1] in (0, 1) and v0[1] != v1[1] and v0[0] in comps:
                     e[(t["chromosome"], v0[0])] = (comps[v0[0]] + 1, (v0[1], v1[1]))
     return exp
+
+
+def boundary_coincidences(chrom_order, phased):
+    """number of chromosome boundaries at which the last record phased (for any sample) on a chromosome has the POS of the first
+    record phased on the chromosome processed next.  phased: iterable of (chrom, pos)"""
+    lo, hi = {}, {}
+    for c, p in phased:
+        lo[c] = min(p, lo.get(c, p)); hi[c] = max(p, hi.get(c, p))
+    order = [c for c in chrom_order if c in lo]
+    return sum(1 for a, b in zip(order, order[1:]) if hi[a] == lo[b])
 
 
 def single_sample_vcf(path, si, out):
@@ -208,6 +228,14 @@ class Hist:
         elig = eligible_first(recs, o["only_snvs"])
         exp = expected_phases(run["trace"])
         targets = run["targets"] or samples
+        order = []
+        for t in run["trace"]:
+            if t["chromosome"] not in order:
+                order.append(t["chromosome"])
+        nb = boundary_coincidences(order, [k for e in exp.values() for k in e])
+        ctx.dist("cli_boundary_coincidences", min(nb, 2))
+        if nb:
+            ctx.nontrivial(("boundary", name, self.case.get("gen_seed")))
         rin = None
         if run.get("chroms"):
             # a chromosome that --chromosome did not request is "left unchanged": there no sample is a target of this run, and
@@ -303,6 +331,7 @@ def run_case(ctx, case, n):
     samples = list(sc.samples)
     h = Hist(ctx, case, d)
     tag1 = o["tag1"]; tag2 = "HP" if tag1 == "PS" else "PS"
+    ctx.dist("hist_layout", LAY.tag(case.get("layout")))
     ctx.dist("pre", case["vcf"]["pre"]); ctx.dist("flip", case["vcf"]["flip_prob"]); ctx.dist("n_samples", len(samples))
     ctx.dist("mode", ("distrust" if o["distrust"] else "trust") + ("+hom" if o["include_hom"] else "") + ("+snvs" if o["only_snvs"] else ""))
     subset = sorted(samples[:max(1, len(samples) // 2)]) if (o["subset"] and len(samples) > 1) else None
@@ -500,6 +529,7 @@ def run_interleaved(ctx, case, n):
     V, P, samples = build_interleaved(case, d)
     h = Hist(ctx, case, d, opts={"distrust": False, "include_hom": False, "only_snvs": case["only_snvs"]})
     ctx.dist("interleaved_pattern", case["pattern"]); ctx.dist("interleaved_enc", case["enc"])
+    ctx.dist("interleaved_layout" + ("" if case.get("cli", True) else "_table"), LAY.tag(case.get("layout")))
     seen = []
 
     def fail(what, key):
@@ -560,6 +590,7 @@ def run_file_case(ctx, case, n):
     h = Hist(ctx, case, d, opts={"distrust": False, "include_hom": False, "only_snvs": os_})
     for k in ("enc_mode", "pq", "n_contigs", "n_samples", "n_files"):
         ctx.dist("file_" + k, case[k])
+    ctx.dist("file_layout", LAY.tag(case.get("layout")) + ("/dense" if case.get("dense_plan") else ""))
 
     # ---- 1. the reader on every phase file, whole file, all samples at once
     parsed, lean_tables, real_res = [], [], []
@@ -658,7 +689,7 @@ def run_file_case(ctx, case, n):
     rng.shuffle(targets)
     chroms = sorted({r["chrom"] for r in recs})
     chroms_on = [c for c in chroms if not case["chrom_subset"] or rng.random() < 0.5]
-    plan = F.gen_plan(rng, recs, psamples, targets, chroms_on)
+    plan = F.gen_plan(rng, recs, psamples, targets, chroms_on, dense=bool(case.get("dense_plan")))
     out = os.path.join(d, "W.vcf")
     rm, tag = case["rm"], case["tag"]
     err = F.real_write(b["P"][0], out, tag, os_, rm, plan)
@@ -738,6 +769,7 @@ def file_writer_oracle(h, case, rin, rout, samples, targets, plan, rm, tag, only
         for i in idxs:
             by_rec[i] = ts
     n_written = 0
+    stated = []
     for i, (ri, ro) in enumerate(zip(rin, rout)):
         ts = {t["name"]: t for t in by_rec[i]}
         for si, s in enumerate(samples):
@@ -767,6 +799,7 @@ def file_writer_oracle(h, case, rin, rout, samples, targets, plan, rm, tag, only
             got = gp if gp is not None else hp
             if want is not None:
                 n_written += 1
+                stated.append((ri["chrom"], ri["pos"]))
                 if not rm and tag == "HP":
                     # without removal the genotype is not sorted, and `_set_HP` relies on a sorted genotype (F4b): not reachable
                     # from a command line (haplotagphase, the only caller with remove_existing_phasing=False, writes PS)
@@ -783,6 +816,12 @@ def file_writer_oracle(h, case, rin, rout, samples, targets, plan, rm, tag, only
                 return
     if n_written:
         h.ctx.nontrivial(("file-write", case["gen_seed"]))
+    runs = R.chrom_blocks(rin)
+    if len({c for c, _ in runs}) == len(runs):
+        nb = boundary_coincidences([c for c, _ in runs], stated)
+        h.ctx.dist("file_writer_boundary_coincidences", min(nb, 2))
+        if nb:
+            h.ctx.nontrivial(("file-write-boundary", case["gen_seed"]))
 
 
 # ------------------------------------------------------------------------------------------------
